@@ -35,8 +35,16 @@ def record_lengths(rep, dev, tier, rng):
             rng.shuffle(specs)
             wcases.append(C.whist_case(True, 0, [("w", sp) for sp in specs]))
             metas.append(specs)
+    # records whose content exceeds 65 535 and 131 071 words (a word count kept in 16 or 17 bits would wrap), each followed by a
+    # small record
+    for code, npts in ((8, 8200), (13, 4100), (18, 8200)) + (((28, 8300), (5, 16400)) if tier == "thorough" else ()):
+        specs = [shapes.grid_ctor(rng, code, 1, npts, "small"), shapes.grid_ctor(rng, code, 1, 3, "small")]
+        wcases.append(C.whist_case(True, 0, [("w", sp) for sp in specs]))
+        metas.append(specs)
     sizes = sfv.run_impl(dev, [[3] + sp for specs in metas for sp in specs])
-    impl = stages.correspondence(rep, "reclen", dev, wcases, "whist(record lengths)")
+    nsmall = len(wcases) - (5 if tier == "thorough" else 3)
+    impl = stages.correspondence(rep, "reclen", dev, wcases[:nsmall], "whist(record lengths)")
+    impl += stages.correspondence(rep, "reclen_big", dev, wcases[nsmall:], "whist(record lengths above 65535 words)", model=(tier == "thorough"))
     k, nfail = 0, 0
     for c, specs, r in zip(wcases, metas, impl):
         res = C.parse_whist(r)
